@@ -74,6 +74,7 @@ func (w *World) VerifyFunction(fn *ssa.Function, opts VerifyOpts) (res *FuncResu
 		st.regs[p] = v
 		ex.assumeParamFacts(st, v.T, p.Type())
 	}
+	ex.cellsForWrittenSliceParams(fn, st)
 	if fn.Signature.Recv() != nil && len(fn.Params) > 0 {
 		if _, ok := fn.Params[0].Type().Underlying().(*types.Pointer); ok {
 			// T13: methods are invoked on non-nil receivers
